@@ -1,9 +1,48 @@
 package main
 
+import (
+	"os"
+	"strings"
+)
+
 // Generators for client query byte strings (engines query, reply).
+
+// names the machine's own hosts file answers (the reply worlds wire the hosts table in front of the upstream, as
+// run.go does): a generated query name must not be one of them, the models of these engines know no hosts file
+var machineHosts = func() map[string]bool {
+	m := map[string]bool{}
+	b, err := os.ReadFile("/etc/hosts")
+	if err != nil {
+		return m
+	}
+	for _, line := range strings.Split(string(b), "\n") {
+		if k := strings.IndexByte(line, '#'); k >= 0 {
+			line = line[:k]
+		}
+		f := strings.Fields(line)
+		for i := 1; i < len(f); i++ {
+			m[strings.ToLower(strings.TrimSuffix(f[i], "."))] = true
+		}
+	}
+	return m
+}()
+
+func labelsInHosts(labels [][]byte) bool {
+	if len(machineHosts) == 0 {
+		return false
+	}
+	var parts []string
+	for _, l := range labels {
+		parts = append(parts, strings.ToLower(string(l)))
+	}
+	return machineHosts[strings.Join(parts, ".")]
+}
 
 func genQuery(r *rng, uniq string) (q []byte, adv int) {
 	labels := randLabels(r, uniq)
+	for labelsInHosts(labels) {
+		labels = randLabels(r, uniq)
+	}
 	if r.coin(3) && uniq == "" {
 		labels = nil // root
 	}
